@@ -163,15 +163,32 @@ def run_doc(hz, ref, name, text, job, ex_factory):
                             return ('ok',)
                         return ('cex', 'an invalid filter raised %s instead of a parse error' % type(e).__name__, model())
                     stats['reached'] += 1
-                    lits = []
-                    pieces = GF._generate_filter_in_python(ast_._head, [], lits) if GF._generate_filter_in_python.__code__.co_argcount >= 3 \
-                        else GF._generate_filter_in_python(ast_._head, [])
-                    body_src = sstr.sx_join('', pieces)
+                    # run the real compile step with the exec-ing wrapper replaced by a recorder: what would be exec'd?
+                    rec = {}
+
+                    class _Recorder(object):
+                        def __init__(self, fun_name, function_template, literals=None):
+                            rec['name'], rec['src'], rec['lits'] = fun_name, function_template, literals
+
+                        def get(self):
+                            return None
+                    real_wrapper = GF._FnWrapper
+                    GF._FnWrapper = _Recorder
+                    try:
+                        with contextlib.redirect_stdout(io.StringIO()):
+                            (getattr(GF._filter_function, '__wrapped__', GF._filter_function))(t)
+                    except Exception as e:
+                        return ('cex', 'compiling an accepted filter raised %s' % type(e).__name__, model())
+                    finally:
+                        GF._FnWrapper = real_wrapper
+                    full_src = rec.get('src')
+                    if full_src is None:
+                        return ('cex', 'the compile step did not go through _FnWrapper', model())
                     # the generated text is needed concretely for the syntactic safety check: exhaustive forking over small
-                    # domains (tag-name characters), sampling of representatives for unconstrained characters (counted)
-                    plain_src = instr.conc_value(body_src) if isinstance(body_src, SymStr) else body_src
+                    # domains (tag-name characters), sampling of representatives (incl. line terminators, quotes, #) otherwise
+                    plain_src = instr.conc_value(full_src) if isinstance(full_src, SymStr) else full_src
                     from . import c12audit
-                    prob = c12audit.source_problem('def f(_grid, _entity, _literals=None):\n  return ' + plain_src, GF)
+                    prob = c12audit.source_problem(plain_src, GF)
                     if prob is not None:
                         return ('cex', 'code derived from the filter text in the generated source: %s' % prob, model())
                     return ('ok',)
